@@ -6,7 +6,10 @@
 EXTENDS SpectrumAssign, Json
 
 S(n, m) == [n |-> n, m |-> m]
-T(path, slots, nbWl, pcm, pre) == [path |-> path, slots |-> slots, nbWl |-> nbWl, pcm |-> pcm, pre |-> pre]
+\* nbWl channels of 100 Gbit/s at a spacing of pcm x 12.5 GHz
+T(path, slots, nbWl, pcm, pre) == [path |-> path, slots |-> slots, bw |-> nbWl * 100000, rate |-> 100000, spacing |-> pcm * 12500, pre |-> pre]
+\* explicit bandwidth (Mbit/s) and off-grid spacing (MHz): both quotients must be rounded up
+TX(path, slots, bw, rate, spacing) == [path |-> path, slots |-> slots, bw |-> bw, rate |-> rate, spacing |-> spacing, pre |-> FALSE]
 
 MCNMin == -8
 MCNMax == 8
@@ -32,7 +35,10 @@ MCTemplates == <<
   T({1, 2},       <<S(NONE, NONE)>>,             1, 3, FALSE),
   T({1, 2, 3, 4}, <<S(6, 2)>>,                   1, 2, FALSE),
   T({1, 2},       <<S(12, 2)>>,                  1, 2, FALSE),      \* user N above the axis: must block, not crash
-  T({3, 4},       <<S(-11, NONE), S(NONE, NONE)>>, 1, 2, FALSE)     \* user N below the axis, M free
+  T({3, 4},       <<S(-11, NONE), S(NONE, NONE)>>, 1, 2, FALSE),    \* user N below the axis, M free
+  T({1, 2},       <<S(-1, 4)>>,                  2, 2, FALSE),      \* wide fixed slot: centre free, edge may be busy
+  TX({3, 4},      <<S(NONE, NONE)>>, 150000, 100000, 28000),        \* 2 channels x ceil(28/12.5) = 3 slots
+  TX({1, 2},      <<S(NONE, 3)>>,    100000, 100000, 40000)         \* fixed M = 3 < ceil(40/12.5) = 4: not enough
 >>
 
 \* emission for the spec -> code replay (B2): one JSON line per complete history
